@@ -465,8 +465,25 @@ func ruleSSALiterals(p *Prog, l *Ledger, tier string) {
 		sc := c.Call.StaticCallee()
 		return sc != nil && sc.String() == "strings.ToLower"
 	}
-	for c := range constArms(rd, isLower) {
-		sections.add(c)
+	for _, h := range p.Helpers(rd) {
+		if fnPkg(h) != p.LibSSA {
+			continue
+		}
+		// the classification may sit in a helper the reader calls for every "[…]" line
+		tag := isLower
+		if h != rd {
+			// in a helper only a switch on the lower-cased inside of the brackets (a slice of the line) counts
+			tag = func(v ssa.Value) bool {
+				if !isLower(v) {
+					return false
+				}
+				_, isSlice := v.(*ssa.Call).Call.Args[0].(*ssa.Slice)
+				return isSlice
+			}
+		}
+		for c := range constArms(h, tag) {
+			sections.add(c)
+		}
 	}
 	// the same test written as strings.EqualFold(header, "Name")
 	for _, b := range rd.Blocks {
